@@ -22,7 +22,7 @@ SPEC = {
         9: "subscription-root-unregistered",
         10: "subscription-fields-unchecked",
     },
-    "n_quick": 2500, "n_thorough": 60000,
+    "n_quick": 2500, "n_thorough": 10000,
     "level": "proof",
     "what_violation": "SchemaBuilder::finish disagrees with the type-validation rules (or a built schema panicked later)",
     "rule": ("a fixed corpus (witness of every known deviation, the unit tests of check.rs, boundary cases) followed by random "
